@@ -69,6 +69,19 @@ def _resolve_const(ctx, f, flow, e, depth=0):
         return ast.literal_eval(e)
     except Exception:
         pass
+    if isinstance(e, (ast.DictComp, ast.ListComp, ast.SetComp)):
+        # a table derived from other constants of the class / module when the class body runs
+        env = {"__globals__": dict(f.module.globals)}
+        if f.cls is not None:
+            for k in reversed(ctx.repo.mro(f.cls.name)):
+                try:
+                    env["__globals__"].update(ctx.repo.cls(k).class_attrs)
+                except Exception:
+                    pass
+        try:
+            return consteval.ev(e, env)
+        except (consteval.Unsupported, consteval.Raised):
+            return None
     if isinstance(e, (ast.Tuple, ast.List)):
         vals = [_resolve_const(ctx, f, flow, x, depth + 1) for x in e.elts]
         return None if any(v is None for v in vals) else (tuple(vals) if isinstance(e, ast.Tuple) else vals)
@@ -274,7 +287,46 @@ def _x86(ctx):
     lists = [n for n in ast.walk(vf.node) if isinstance(n, (ast.List, ast.Tuple, ast.Set))
              and n.elts and all(isinstance(e, ast.Constant) and isinstance(e.value, str) for e in n.elts)]
     if len(lists) != 1:
-        ctx.broken("R1: vector class list not found in is_vector_register")
+        # the classes given by a regular expression: a constant pattern applied to the register name - evaluated on the
+        # finite vocabulary of class names (bare, as in model entries, and numbered)
+        import re as _re
+        pat, flags, site = None, 0, None
+        for c in ast.walk(vf.node):
+            if not (isinstance(c, ast.Call) and isinstance(c.func, ast.Attribute) and c.func.attr in ("match", "fullmatch", "search")):
+                continue
+            recv = c.func.value
+            comp = None
+            if U(recv) == "re" and len(c.args) >= 2:
+                comp, flag_nodes = c.args[0], c.args[2:] + [k.value for k in c.keywords if k.arg == "flags"]
+            else:
+                node = None
+                if isinstance(recv, ast.Attribute) and isinstance(recv.value, ast.Name) and recv.value.id in ("self", "cls", vf.cls.name if vf.cls else ""):
+                    node = ctx.repo.cls(vf.cls.name).class_attrs.get(recv.attr)
+                elif isinstance(recv, ast.Name):
+                    node = vf.module.globals.get(recv.id)
+                if node is not None and isinstance(node, ast.Call) and U(node.func) == "re.compile" and node.args:
+                    comp, flag_nodes = node.args[0], node.args[1:] + [k.value for k in node.keywords if k.arg == "flags"]
+            if comp is not None and isinstance(comp, ast.Constant) and isinstance(comp.value, str):
+                pat, site = comp.value, c
+                for fn_ in flag_nodes:
+                    if "IGNORECASE" in U(fn_) or U(fn_) in ("re.I",):
+                        flags |= _re.IGNORECASE
+                how = c.func.attr
+        if pat is None:
+            ctx.broken("R1: vector class list not found in is_vector_register")
+        rx = _re.compile(pat, flags)
+        fn_ = {"match": rx.match, "fullmatch": rx.fullmatch, "search": rx.search}[how]
+        cands = sorted(set(spec["vector_classes"]) | {"k", "st", "r", "bnd", "cr", "tmm"})
+        vcls = [c for c in cands if all(fn_(c + n) is not None for n in ("", "0", "7"))]
+        partial = [c for c in cands if c not in vcls and any(fn_(c + n) is not None for n in ("", "0", "7", "15", "31"))]
+        strangers = [n for fam in spec["gpr_families"].values() for n in fam if fn_(n.lower()) is not None]
+        ctx.check(sorted(vcls) == sorted(spec["vector_classes"]) and not partial and not strangers, "R1", "vector classes = mm/xmm/ymm/zmm (regular expression)",
+                  vf.where(site), "the pattern %r accepts the register classes %s (partly: %s; general-purpose names: %s), the vector classes are %s: "
+                  "a register of a class it leaves out is no longer recognised as a vector register (and is then handled by the "
+                  "general-purpose branches)" % (pat, vcls, partial, strangers[:3], spec["vector_classes"]), vf.qname, "vector class list")
+        ctx.check(bool(flags & _re.IGNORECASE) or "lower()" in U(site) or "upper()" in U(site), "R3", "vector class test is case-insensitive", vf.where(site),
+                  "the pattern is applied to the name as written, without IGNORECASE", vf.qname, "vector class membership")
+        return f, flow, pa, pb, tname, [c for c in spec["vector_classes"] if c in vcls] or list(spec["vector_classes"]), spec
     vcls = [e.value for e in lists[0].elts]
     ctx.check(sorted(vcls) == sorted(spec["vector_classes"]), "R1", "vector classes = mm/xmm/ymm/zmm",
               vf.where(lists[0]), "vector class list %s differs from %s" % (vcls, spec["vector_classes"]),
@@ -495,7 +547,8 @@ def _x86_returns(ctx, f, flow, pa, pb, tname, vcls, spec):
                           "through upper()/lower()" % (t, U(n)), f.qname, U(n))
     bg = ctx.func("ParserX86ATT.is_basic_gpr")
     sw = pm.find("M_r.name.lower().startswith(M_x)", bg.node)
-    ctx.check(bool(sw), "R3", "is_basic_gpr lower-cases before the prefix test", bg.where(),
+    raw_sw = [c for c in ast.walk(bg.node) if isinstance(c, ast.Call) and isinstance(c.func, ast.Attribute) and c.func.attr == "startswith"]
+    ctx.judge(bool(sw), bool(raw_sw), "R3", "is_basic_gpr lower-cases before the prefix test", bg.where(),
               "is_basic_gpr tests name prefixes without case folding", bg.qname, "is_basic_gpr prefix test")
 
 
@@ -533,6 +586,7 @@ def _aarch64(ctx):
                 classes[name] = d.value.value
     # class strings actually used in membership tests
     used = {}
+    unresolved = []
     for n in ast.walk(f.node):
         if isinstance(n, ast.Compare) and isinstance(n.ops[0], ast.In):
             c = n.comparators[0]
@@ -546,13 +600,38 @@ def _aarch64(ctx):
                 if isinstance(v, str):
                     used[U(c)] = v
                 elif isinstance(c, ast.Name):
-                    for lp in C.enclosing_loops(n):
-                        if isinstance(lp, ast.For) and U(lp.target) == c.id:
-                            vs = _resolve_const(ctx, f, flow, lp.iter)
-                            if isinstance(vs, (list, tuple)) and all(isinstance(x, str) for x in vs):
-                                for i_, x in enumerate(vs):
-                                    used["%s#%d" % (c.id, i_)] = x
+                    def classes_of_iter(it, depth=0):
+                        """the class strings an iterable runs over: a constant list, or a local built by filtering one"""
+                        vs_ = _resolve_const(ctx, f, flow, it)
+                        if isinstance(vs_, (list, tuple)) and all(isinstance(x, str) for x in vs_):
+                            return list(vs_)
+                        if isinstance(it, ast.Name) and depth < 2:
+                            ds_ = [d for d in flow.all_defs.get(it.id, []) if d.kind == "assign" and d.value is not None]
+                            if len(ds_) == 1 and isinstance(ds_[0].value, (ast.ListComp, ast.GeneratorExp)) and len(ds_[0].value.generators) == 1 \
+                                    and U(ds_[0].value.elt) == U(ds_[0].value.generators[0].target):
+                                return classes_of_iter(ds_[0].value.generators[0].iter, depth + 1)
+                        return None
+                    binders = [lp.iter for lp in C.enclosing_loops(n) if isinstance(lp, ast.For) and U(lp.target) == c.id]
+                    p_ = C.parent(n)
+                    while p_ is not None and p_ is not f.node:
+                        if isinstance(p_, (ast.ListComp, ast.GeneratorExp, ast.SetComp)):
+                            binders += [g_.iter for g_ in p_.generators if U(g_.target) == c.id]
+                        p_ = C.parent(p_)
+                    hit = False
+                    for it in binders:
+                        vs = classes_of_iter(it)
+                        if vs is not None:
+                            hit = True
+                            for i_, x in enumerate(vs):
+                                used["%s#%d" % (c.id, i_)] = x
+                    if not hit:
+                        unresolved.append(U(n))
+                else:
+                    unresolved.append(U(n))
     got = [frozenset(v) for v in used.values()]
+    if unresolved and not all(frozenset(c) in got for c in spec["classes"]):
+        ctx.unknown("R2", "AArch64 prefix classes", f.where(), "membership tests whose class the rule cannot resolve: %s" % unresolved[:3])
+        return
     want = [frozenset(c) for c in spec["classes"]]
     for w in want:
         if w in got:
@@ -578,19 +657,23 @@ def _aarch64(ctx):
     # ---- R4 / R3
     ctx.rule("R4", "every `return True` is guarded by a same-family condition; each family has one")
     seen = set()
+    r4_unknown = False
     for r in [n for n in ast.walk(f.node) if isinstance(n, ast.Return)]:
         v = r.value
         if isinstance(v, ast.Constant) and v.value is False:
             continue
         if not (isinstance(v, ast.Constant) and v.value is True):
             ctx.unknown("R4", U(r)[:100], f.where(r), "return value is not a literal True/False")
+            r4_unknown = True
             continue
         facts = C.norm_fact_nodes(r)
         pos = [e for e, pol in facts if pol]
         name_eq = [e for e in pos if isinstance(e, ast.Compare) and isinstance(e.ops[0], ast.Eq)
                    and {_strip_fold(e.left), _strip_fold(e.comparators[0])} == {pa + ".name", pb + ".name"}]
         ins = [e for e in pos if isinstance(e, ast.Compare) and isinstance(e.ops[0], ast.In)]
-        subj = lambda x: _accessor_attr(ctx, x) or _strip_fold(x)
+        def subj(x):
+            x = flow.subst(x) if isinstance(x, ast.Name) else x
+            return _accessor_attr(ctx, x) or _strip_fold(x)
         ca = [U(e.comparators[0]) for e in ins if subj(e.left) == pa + ".prefix"]
         cb = [U(e.comparators[0]) for e in ins if subj(e.left) == pb + ".prefix"]
         common = set(ca) & set(cb)
@@ -611,10 +694,18 @@ def _aarch64(ctx):
                 if subj(e.left) in (pa + ".prefix", pb + ".prefix"):
                     ctx.check(_has_fold(e.left) or prefix_stored_folded, "R3", "prefix compared case-insensitively: " + U(e), f.where(e),
                               "prefix compared without case folding (and RegisterOperand does not store it folded)", f.qname, U(e))
+        elif name_eq and (ca or cb) and not (ca and cb):
+            # the class membership of one register is tested here, that of the other one was established elsewhere (the
+            # classes filtered by the first register's prefix beforehand): not followed
+            ctx.unknown("R4", U(r)[:60], f.where(r), "only one register's prefix is tested against the class at this `return True` "
+                        "(facts: %s); where the other one's class comes from is not followed" % [U(e) for e in pos][:4])
+            r4_unknown = True
         else:
             ctx.node_bad("R4", f, r, "this `return True` is not guarded by `equal number and both prefixes in one "
                          "class` (facts: %s)" % [U(e) for e in pos])
     for w in want:
+        if r4_unknown and w not in seen:
+            continue
         ctx.check(w in seen, "R4", "class %s has a positive rule" % "".join(sorted(w)), f.where(),
                   "no `return True` is guarded by membership of both prefixes in the class %s" % sorted(w),
                   f.qname, "positive rule for class %s" % "".join(sorted(w)))
@@ -687,6 +778,15 @@ def _strip_fold(e):
 
 
 def run(ctx):
-    args = _x86(ctx)
-    _x86_returns(ctx, *args)
+    from ..srcmodel import AnalysisError
+    # the two ISAs are judged independently: an idiom of the x86 predicate the rules do not know must not hide a finding
+    # (or a false alarm) in the AArch64 one
+    err = None
+    try:
+        args = _x86(ctx)
+        _x86_returns(ctx, *args)
+    except AnalysisError as e:
+        err = e
     _aarch64(ctx)
+    if err is not None:
+        raise err
